@@ -55,6 +55,11 @@ THEOREMS = [
     'C03_wed_inside',
     'C03_arb_facet_k',
     'C03_arb_inside',
+    'C03_arb_centroid_inside',
+    'C03_parse_facet_digits',
+    'C03_wrong_count_rejected',
+    'C03_arb_wrong_descriptor_count',
+    'C03_trc_equal_radii_error',
     'C03_sides_pm1',
     'C03_number_one',
     'C03_expand_macro_den',
